@@ -1,4 +1,5 @@
 //@ create src/cli/tests/verif_argv.rs
+//@ native verif_oracle_cli_flows "bounded stand-in / witness finder (C01, C02, C05, C07, C08, C13, C16): the built kestrel binary on the shipped two-key keyring: encrypt for every (from, to) in {alice, bob}^2 (incl. to self) with a 10-byte and a 70000-byte input, file length = 132 + 32 per chunk + plaintext, decrypt as each key succeeds exactly for `to`, returns the input and names `from`, a failed decrypt leaves no output file and an existing one intact; password mode round trip, rejection of a different password and of the password with a trailing space, tab or newline; change-pass keeps the public key, makes the old password fail, draws a new salt also when the new password equals the old one; two identical encrypt invocations differ in their ephemeral key"
 //@ native verif_oracle_argv_sweep "bounded stand-in / witness finder (C09, C13): the built kestrel binary (stdin closed, no controlling terminal, KESTREL_* unset, scratch working directory) on every argument vector of length <= 2 over 38 tokens (commands, options, aliases, paths of the shipped test keyring / data files, a missing path, an absent output path, empty and non-ASCII strings), every length-3 vector starting with a command word, and 60 complete command lines with one element dropped, duplicated or replaced: exit status is 0 or 1, never a signal or panic text; status 1 carries an 'Error:' line; a failed run never leaves a file at the absent output path"
 // Native oracle on the REAL binary.  Never counted as proved; a disagreement is a concrete failing argument vector.
 use std::path::PathBuf;
@@ -69,6 +70,8 @@ fn verif_oracle_argv_sweep() {
         }
     }
     let mut n = 0u32; let mut bad = 0u32; let mut first: Option<String> = None;
+    // without setsid(1) a prompt could reach a controlling terminal and wait for it: then the sweep is not run at all
+    if !std::path::Path::new("/usr/bin/setsid").exists() { vectors.clear(); }
     for v in vectors.iter() {
         n += 1;
         if let Some(what) = verif_run(&dir, v, &out) {
@@ -79,4 +82,115 @@ fn verif_oracle_argv_sweep() {
     let _ = std::fs::remove_dir_all(&dir);
     println!("VERIF_ORACLE verif_oracle_argv_sweep cases={} disagreements={} first={:?}", n, bad, first);
     assert!(bad == 0, "the binary misbehaves on {} of {} argument vectors; first: {:?}", bad, n, first);
+}
+
+struct VRun { code: Option<i32>, err: String, out: Vec<u8> }
+fn verif_cmd(dir: &PathBuf, args: &[&str], envs: &[(&str, &str)]) -> VRun {
+    let mut c = Command::new(VERIF_EXE);
+    c.args(args).current_dir(dir).stdin(Stdio::null()).stdout(Stdio::piped()).stderr(Stdio::piped())
+        .env_remove("KESTREL_PASSWORD").env_remove("KESTREL_NEW_PASSWORD").env_remove("KESTREL_KEYRING").env("HOME", dir);
+    for (k, v) in envs { c.env(k, v); }
+    match c.spawn().and_then(|ch| ch.wait_with_output()) {
+        Ok(o) => VRun { code: o.status.code(), err: String::from_utf8_lossy(&o.stderr).to_string(), out: o.stdout },
+        Err(e) => VRun { code: None, err: format!("spawn failed: {}", e), out: Vec::new() },
+    }
+}
+
+#[test]
+fn verif_oracle_cli_flows() {
+    let mut dir = std::env::temp_dir();
+    dir.push(format!("verif-flows-{}", std::process::id()));
+    let _ = std::fs::remove_dir_all(&dir);
+    std::fs::create_dir_all(&dir).unwrap();
+    let tests = PathBuf::from(env!("CARGO_MANIFEST_DIR")).join("tests");
+    let keyring = tests.join("keyring.txt").to_string_lossy().to_string();
+    let p = |n: &str| dir.join(n).to_string_lossy().to_string();
+    let mut n = 0u32; let mut bad = 0u32; let mut first: Option<String> = None;
+    let mut fail = |bad: &mut u32, first: &mut Option<String>, what: String| { *bad += 1; if first.is_none() { *first = Some(what); } };
+    let small: Vec<u8> = b"0123456789".to_vec();
+    let big: Vec<u8> = (0..70000u32).map(|i| (i * 31 + 7) as u8).collect();
+    std::fs::write(p("small"), &small).unwrap(); std::fs::write(p("big"), &big).unwrap();
+    let users = [("alice", "alice"), ("bob", "bob")];
+    // ---- key mode: every (from, to), both sizes
+    for (from, fpw) in users.iter() { for (to, _tpw) in users.iter() { for (inp, data) in [("small", &small), ("big", &big)] {
+        n += 1;
+        let ct = p("ct"); let _ = std::fs::remove_file(&ct);
+        let r = verif_cmd(&dir, &["encrypt", &p(inp), "-t", to, "-f", from, "-o", &ct, "-k", &keyring, "--env-pass"], &[("KESTREL_PASSWORD", fpw)]);
+        if r.code != Some(0) { fail(&mut bad, &mut first, format!("encrypt {} from {} to {}: exit {:?} {}", inp, from, to, r.code, r.err)); continue; }
+        let ctb = std::fs::read(&ct).unwrap_or_default();
+        let chunks = if data.is_empty() { 1 } else { (data.len() + 65535) / 65536 };
+        if ctb.len() != 132 + 32 * chunks + data.len() { fail(&mut bad, &mut first, format!("encrypt {} from {} to {}: file length {} is not 132 + 32*{} + {}", inp, from, to, ctb.len(), chunks, data.len())); }
+        for (reader, rpw) in users.iter() {
+            n += 1;
+            let out = p("pt"); std::fs::write(&out, b"PREVIOUS CONTENT").unwrap();
+            let d = verif_cmd(&dir, &["decrypt", &ct, "-t", reader, "-o", &out, "-k", &keyring, "--env-pass"], &[("KESTREL_PASSWORD", rpw)]);
+            let got = std::fs::read(&out).unwrap_or_default();
+            if reader == to {
+                if d.code != Some(0) || got != **data { fail(&mut bad, &mut first, format!("file from {} to {} ({}): decrypt as {} gives exit {:?}, {} bytes, equal to the input: {} ({})", from, to, inp, reader, d.code, got.len(), got == **data, d.err.trim())); }
+                else if !d.err.contains(&format!("File from: {}", from)) { fail(&mut bad, &mut first, format!("file from {} to {}: decrypt as {} does not name the sender: {:?}", from, to, reader, d.err)); }
+            } else {
+                if d.code != Some(1) { fail(&mut bad, &mut first, format!("file from {} to {}: decrypt as {} (not the recipient) exits {:?}", from, to, reader, d.code)); }
+                else if got != b"PREVIOUS CONTENT" { fail(&mut bad, &mut first, format!("file from {} to {}: failed decrypt as {} changed the existing output file ({} bytes now)", from, to, reader, got.len())); }
+            }
+        }
+    } } }
+    // ---- C07: two identical invocations never share the ephemeral key (file bytes 4..36)
+    {
+        n += 1;
+        let mut eph = Vec::new();
+        for i in 0..3 {
+            let ct = p(&format!("ct{}", i));
+            let _ = verif_cmd(&dir, &["encrypt", &p("small"), "-t", "bob", "-f", "alice", "-o", &ct, "-k", &keyring, "--env-pass"], &[("KESTREL_PASSWORD", "alice")]);
+            let b = std::fs::read(&ct).unwrap_or_default();
+            eph.push(if b.len() >= 36 { b[4..36].to_vec() } else { vec![i as u8] });
+        }
+        if eph[0] == eph[1] || eph[0] == eph[2] || eph[1] == eph[2] { fail(&mut bad, &mut first, "identical encrypt invocations share an ephemeral public key".to_string()); }
+    }
+    // ---- password mode
+    for pw in ["pass123", "hunter2 ", ""] {
+        n += 1;
+        let ct = p("pct"); let _ = std::fs::remove_file(&ct);
+        let r = verif_cmd(&dir, &["password", "encrypt", &p("small"), "-o", &ct, "--env-pass"], &[("KESTREL_PASSWORD", pw)]);
+        if r.code != Some(0) { fail(&mut bad, &mut first, format!("password encrypt under {:?}: exit {:?} {}", pw, r.code, r.err)); continue; }
+        let l = std::fs::read(&ct).map(|b| b.len()).unwrap_or(0);
+        if l != 36 + 32 + small.len() { fail(&mut bad, &mut first, format!("password encrypt: file length {} is not 36 + 32 + {}", l, small.len())); }
+        let others: Vec<String> = vec![pw.to_string(), format!("{} ", pw), format!("{}\t", pw), format!("{}\n", pw), format!("{}x", pw), pw.trim_end().to_string() + "\u{a0}"];
+        for (i, w) in others.iter().enumerate() {
+            n += 1;
+            let out = p("ppt"); let _ = std::fs::remove_file(&out);
+            let d = verif_cmd(&dir, &["password", "decrypt", &ct, "-o", &out, "--env-pass"], &[("KESTREL_PASSWORD", w)]);
+            let got = std::fs::read(&out).ok();
+            if i == 0 {
+                if d.code != Some(0) || got.as_deref() != Some(&small[..]) { fail(&mut bad, &mut first, format!("password round trip under {:?} fails: exit {:?} {}", pw, d.code, d.err.trim())); }
+            } else if w != pw {
+                if d.code != Some(1) || got.is_some() { fail(&mut bad, &mut first, format!("file encrypted under password {:?} is accepted under the different password {:?} (exit {:?}, output file created: {})", pw, w, d.code, got.is_some())); }
+            }
+        }
+    }
+    // ---- change-pass (C16, C07)
+    {
+        let ring = std::fs::read_to_string(&keyring).unwrap();
+        let alice_sk = ring.lines().find(|l| l.starts_with("PrivateKey")).unwrap().split_once('=').unwrap().1.trim().to_string();
+        let alice_pk = ring.lines().find(|l| l.starts_with("PublicKey")).unwrap().split_once('=').unwrap().1.trim().to_string();
+        let salt_of = |k: &str| -> String { k.chars().skip(5).take(40).collect() };   // base64 chars covering bytes 4..34 (salt)
+        let newkey = |o: &VRun| -> Option<String> { String::from_utf8_lossy(&o.out).lines().find(|l| l.starts_with("PrivateKey")).map(|l| l.split_once('=').unwrap().1.trim().to_string()) };
+        for newpw in ["alicenew", "alice"] {
+            n += 1;
+            let a = verif_cmd(&dir, &["key", "change-pass", &alice_sk, "--env-pass"], &[("KESTREL_PASSWORD", "alice"), ("KESTREL_NEW_PASSWORD", newpw)]);
+            let b = verif_cmd(&dir, &["key", "change-pass", &alice_sk, "--env-pass"], &[("KESTREL_PASSWORD", "alice"), ("KESTREL_NEW_PASSWORD", newpw)]);
+            let (ka, kb) = (newkey(&a), newkey(&b));
+            if a.code != Some(0) || ka.is_none() || kb.is_none() { fail(&mut bad, &mut first, format!("change-pass alice -> {:?}: exit {:?}, no PrivateKey line ({})", newpw, a.code, a.err.trim())); continue; }
+            let (ka, kb) = (ka.unwrap(), kb.unwrap());
+            if salt_of(&ka) == salt_of(&alice_sk) || salt_of(&ka) == salt_of(&kb) { fail(&mut bad, &mut first, format!("change-pass alice -> {:?} does not draw a new salt (same salt as {})", newpw, if salt_of(&ka) == salt_of(&kb) { "a second identical invocation" } else { "the input key" })); }
+            let e = verif_cmd(&dir, &["key", "extract-pub", &ka, "--env-pass"], &[("KESTREL_PASSWORD", newpw)]);
+            if e.code != Some(0) || !String::from_utf8_lossy(&e.out).contains(&alice_pk) { fail(&mut bad, &mut first, format!("after change-pass alice -> {:?} the new locked key does not give alice's public key under the new password (exit {:?} {})", newpw, e.code, e.err.trim())); }
+            if newpw != "alice" {
+                let e = verif_cmd(&dir, &["key", "extract-pub", &ka, "--env-pass"], &[("KESTREL_PASSWORD", "alice")]);
+                if e.code != Some(1) { fail(&mut bad, &mut first, format!("after change-pass alice -> {:?} the OLD password still unlocks the new key (exit {:?})", newpw, e.code)); }
+            }
+        }
+    }
+    let _ = std::fs::remove_dir_all(&dir);
+    println!("VERIF_ORACLE verif_oracle_cli_flows cases={} disagreements={} first={:?}", n, bad, first);
+    assert!(bad == 0, "the CLI misbehaves in {} of {} checks; first: {:?}", bad, n, first);
 }
